@@ -867,6 +867,33 @@ Proof.
     + exact Hnum.
 Qed.
 
+(* with the repair D-C17g every float64 is written in plain digits: any magnitude reads back *)
+Theorem parse_any_float_f : forall m e, dec_normal m e = true ->
+  parse_any (fmt_float_f m e) = Ok (VDec m e).
+Proof.
+  intros m e Hn. destruct (Z.eq_dec m 0) as [->|Hm].
+  - unfold dec_normal in Hn. cbn in Hn. apply Z.eqb_eq in Hn. subst e. reflexivity.
+  - pose proof (dec_normal_nz m e Hn Hm) as Hm10.
+    unfold fmt_float_f. destruct (Z.eqb_spec m 0); [contradiction|].
+    set (ds := digits_of_N (Z.to_N (Z.abs m))) in *.
+    destruct (fmt_parts_spec (m <? 0) m e Hm Hm10) as (Hip & Hne & Hf & _ & Hmk). fold ds in Hip, Hne, Hf, Hmk.
+    rewrite (fmt_f_parts ds _ (digits_of_N_nonnil _)).
+    set (p := fmt_parts ds (Z.of_nat (length ds) + e)) in *.
+    destruct (number_parts (m <? 0) (fst p) (snd p) Hip Hne Hf) as [Hnum Hpar].
+    change (if m <? 0 then [b_minus] else []) with (sign_text (m <? 0)).
+    destruct (sign_text (m <? 0) ++ fst p ++ frac_text (snd p)) as [|c t] eqn:Etext.
+    { destruct (m <? 0); [discriminate Etext|]. cbn [sign_text app] in Etext. apply app_eq_nil in Etext.
+      destruct Etext; contradiction. }
+    rewrite parse_any_number; [|..].
+    + rewrite Hpar, Hmk, signed_abs. reflexivity.
+    + destruct (m <? 0).
+      * cbn [sign_text app] in Etext. injection Etext as <- _. reflexivity.
+      * cbn [sign_text app] in Etext. destruct (fst p) as [|c' r'] eqn:Ep; [congruence|].
+        cbn [app] in Etext. injection Etext as <- _. apply digit_lt_65.
+        cbn [forallb] in Hip. now apply andb_true_iff in Hip.
+    + exact Hnum.
+Qed.
+
 (* ---- the JSON number reader on  [-] ip [ . f ] ---------------------------------------------------------- *)
 
 Lemma span_digits_stop : forall ds x, forallb is_digit ds = true ->
@@ -1455,29 +1482,32 @@ Proof. reflexivity. Qed.
 Lemma json_marshal_nonnil : forall v, jsafe v = true -> exists c t, json_marshal v = c :: t.
 Proof. intros v H. destruct (marshal_head v H) as (c & t & E & _). eauto. Qed.
 
-Theorem paths_agree : forall v T, safe v T = true -> bind_formatted v T = bind_prefix v T.
+Theorem paths_agree : forall fx v T, safe fx v T = true -> bind_formatted fx v T = bind_prefix v T.
 Proof.
-  intros v T H. destruct v as [|b|z|m e|s|l|kvs]; try discriminate H.
+  intros fx v T H. destruct v as [|b|z|m e|s|l|kvs]; try discriminate H.
   - destruct b; reflexivity.
   - cbn [safe] in H. apply andb_true_iff in H. destruct H as [Hs Hi].
-    unfold bind_formatted. cbn [format_any rbind].
+    unfold bind_formatted. cbn [format_cfg format_any rbind].
     destruct (digits_of_Z z) as [|c t] eqn:E; [exfalso; exact (digits_of_Z_nonnil _ E)|].
     rewrite bind_value_cons, <- E, parse_any_digits. cbn [rbind]. unfold decode_weak, bind_prefix, bind_prefix_r.
     apply (dw_floatify T (VInt z)); [exact Hs|now rewrite nsafe_int].
-  - cbn [safe] in H. destruct (dec_top_safe_spec m e H) as [Hn Hr].
-    pose proof (parse_any_float_v m e Hn Hr) as Hp.
-    unfold bind_formatted. cbn [format_any rbind].
-    destruct (fmt_float_v m e) as [|c t]; [discriminate Hp|].
-    rewrite bind_value_cons, Hp. reflexivity.
+  - cbn [safe] in H. unfold bind_formatted. cbn [format_cfg]. destruct fx.
+    + pose proof (parse_any_float_f m e H) as Hp. cbn [rbind].
+      destruct (fmt_float_f m e) as [|c t]; [discriminate Hp|].
+      rewrite bind_value_cons, Hp. reflexivity.
+    + destruct (dec_top_safe_spec m e H) as [Hn Hr].
+      pose proof (parse_any_float_v m e Hn Hr) as Hp. cbn [format_any rbind].
+      destruct (fmt_float_v m e) as [|c t]; [discriminate Hp|].
+      rewrite bind_value_cons, Hp. reflexivity.
   - cbn [safe] in H. apply andb_true_iff in H. destruct H as [Hp Hne].
-    unfold bind_formatted. cbn [format_any rbind]. destruct s as [|c t]; [discriminate Hne|].
+    unfold bind_formatted. cbn [format_cfg format_any rbind]. destruct s as [|c t]; [discriminate Hne|].
     rewrite bind_value_cons, (plain_parse _ Hp). reflexivity.
   - cbn [safe] in H. apply andb_true_iff in H. destruct H as [Hj Hn].
-    unfold bind_formatted. cbn [format_any rbind].
+    unfold bind_formatted. cbn [format_cfg format_any rbind].
     destruct (json_marshal_nonnil _ Hj) as (c & t & E). rewrite E, bind_value_cons, <- E.
     rewrite (parse_any_marshal (VList l) Hj). cbn [rbind]. exact (dw_floatify T _ Hj Hn).
   - cbn [safe] in H. apply andb_true_iff in H. destruct H as [Hj Hn].
-    unfold bind_formatted. cbn [format_any rbind].
+    unfold bind_formatted. cbn [format_cfg format_any rbind].
     destruct (json_marshal_nonnil _ Hj) as (c & t & E). rewrite E, bind_value_cons, <- E.
     rewrite (parse_any_marshal (VMap kvs) Hj). cbn [rbind]. exact (dw_floatify T _ Hj Hn).
 Qed.
@@ -1508,36 +1538,50 @@ Definition key_ok (key : bytes) : bool :=
 Lemma ph_mtext : forall key, ph key = [] ++ mtext b_dollar key ++ [].
 Proof. intros key. unfold ph, mtext. cbn [app]. now rewrite app_nil_r. Qed.
 
-Lemma quote_stage_key : forall cfg key text, key_ok key = true -> cfg key <> VNull ->
-  format_any (cfg key) = Ok text -> inert text = true ->
-  find_first b_dollar (ph key) <> None /\
-  quote_stage cfg (Some repo_budget) O (ph key) = Done text.
+Lemma format_cfg_false : forall v, format_cfg false v = format_any v.
+Proof. intros v. destruct v; reflexivity. Qed.
+
+(* the unrepaired callback is Placeholder.resolve *)
+Lemma resolve_fx_false : forall cfg exp, resolve_fx false cfg exp = resolve cfg exp.
 Proof.
-  intros cfg key text Hk Hnn Hf Hi. unfold key_ok in Hk. apply andb_true_iff in Hk. destruct Hk as [Hb Hc].
+  intros cfg exp. unfold resolve_fx, resolve. destruct (split_first b_colon exp) as [key dflt].
+  match goal with |- rbind ?x _ = rbind ?x _ => destruct x as [v'| |]; try reflexivity end.
+  cbn [rbind]. destruct v'; reflexivity.
+Qed.
+
+Lemma resolve_fx_key : forall fx cfg key, byte_index b_colon key = None -> cfg key <> VNull ->
+  resolve_fx fx cfg key = format_cfg fx (cfg key).
+Proof.
+  intros fx cfg key Hc Hnn. unfold resolve_fx. rewrite (split_first_none _ _ Hc).
+  assert (H : (if absent (cfg key) then Ok (cfg key) else Ok (cfg key)) = @Ok cval (cfg key)) by (destruct (absent (cfg key)); reflexivity).
+  rewrite H. cbn [rbind]. destruct (cfg key); try reflexivity. congruence.
+Qed.
+
+Lemma quote_stage_key : forall fx cfg key text, key_ok key = true -> cfg key <> VNull ->
+  format_cfg fx (cfg key) = Ok text -> inert text = true ->
+  find_first b_dollar (ph key) <> None /\
+  replace_all_content b_dollar (resolve_fx fx cfg) (Some repo_budget) O (ph key) = Done text.
+Proof.
+  intros fx cfg key text Hk Hnn Hf Hi. unfold key_ok in Hk. apply andb_true_iff in Hk. destruct Hk as [Hb Hc].
   destruct (byte_index b_colon key) eqn:Ec; [discriminate|].
   split.
   - rewrite ph_mtext, (find_first_at b_dollar eq_refl eq_refl [] key [] eq_refl Hb). discriminate.
-  - unfold quote_stage, replace_all_content. change repo_budget with (S 1023).
-    rewrite ph_mtext, (rac_step_at b_dollar eq_refl eq_refl (resolve cfg) Exhausted 1023 [] key [] eq_refl Hb).
-    assert (Hres : resolve cfg key = Ok text).
-    { rewrite <- (app_nil_r key). destruct (absent (cfg key)) eqn:Ea.
-      - rewrite (resolve_nodefault cfg key [] Ec (or_introl eq_refl) Ea).
-        unfold render_value. destruct (cfg key); try exact Hf. congruence.
-      - now rewrite (resolve_present cfg key [] Ec (or_introl eq_refl) Ea). }
-    rewrite Hres. cbn [app]. rewrite app_nil_r, rac_loop_eq.
+  - unfold replace_all_content. change repo_budget with (S 1023).
+    rewrite ph_mtext, (rac_step_at b_dollar eq_refl eq_refl (resolve_fx fx cfg) Exhausted 1023 [] key [] eq_refl Hb).
+    rewrite (resolve_fx_key fx cfg key Ec Hnn), Hf. cbn [app]. rewrite app_nil_r, rac_loop_eq.
     destruct (inert_split text Hi) as [I1 _]. now rewrite (find_first_absent _ _ I1).
 Qed.
 
-Theorem paths_agree_key : forall cfg key T text,
-  key_ok key = true -> safe (cfg key) T = true -> format_any (cfg key) = Ok text -> inert text = true ->
-  bind_key_value cfg key T = Some (bind_prefix (cfg key) T).
+Theorem paths_agree_key : forall fx cfg key T text,
+  key_ok key = true -> safe fx (cfg key) T = true -> format_cfg fx (cfg key) = Ok text -> inert text = true ->
+  bind_key_value fx cfg key T = Some (bind_prefix (cfg key) T).
 Proof.
-  intros cfg key T text Hk Hs Hf Hi.
+  intros fx cfg key T text Hk Hs Hf Hi.
   assert (Hnn : cfg key <> VNull) by (intros E; rewrite E in Hs; discriminate Hs).
-  destruct (quote_stage_key cfg key text Hk Hnn Hf Hi) as [Hff Hq].
+  destruct (quote_stage_key fx cfg key text Hk Hnn Hf Hi) as [Hff Hq].
   unfold bind_key_value, bind_tag_value. destruct (find_first b_dollar (ph key)); [|congruence].
   rewrite Hq. unfold expr_free. destruct (inert_split text Hi) as [_ I2]. rewrite (find_first_absent _ _ I2).
-  f_equal. rewrite <- (paths_agree _ _ Hs). unfold bind_formatted. rewrite Hf. reflexivity.
+  f_equal. rewrite <- (paths_agree _ _ _ Hs). unfold bind_formatted. rewrite Hf. reflexivity.
 Qed.
 
 (* ---- literals ---------------------------------------------------------------------------------------------- *)
@@ -1552,10 +1596,10 @@ Proof.
   intros [|c t] Hp; [reflexivity|]. unfold bind_value_r. rewrite (plain_parse _ Hp). reflexivity.
 Qed.
 
-Theorem literal_tag : forall cfg req s T, inert s = true ->
-  bind_tag_value cfg req s T = Some (bind_value_r req s T).
+Theorem literal_tag : forall fx cfg req s T, inert s = true ->
+  bind_tag_value fx cfg req s T = Some (bind_value_r req s T).
 Proof.
-  intros cfg req s T Hi. destruct (inert_split s Hi) as [I1 I2]. unfold bind_tag_value, expr_free.
+  intros fx cfg req s T Hi. destruct (inert_split s Hi) as [I1 I2]. unfold bind_tag_value, expr_free.
   now rewrite (find_first_absent _ _ I1), (find_first_absent _ _ I2).
 Qed.
 
@@ -1701,12 +1745,12 @@ Proof.
   - unfold ph. cbn [length]. rewrite app_length. cbn [length]. lia.
 Qed.
 
-Theorem prop_is_value : forall cfg req key args T,
+Theorem prop_is_value : forall fx cfg req key args T,
   simple_key key = true -> args = [] \/ (exists a, args = b_comma :: a) ->
-  bind_prop cfg req (key ++ args) T = bind_tag_value cfg req (tag_value_part (ph key ++ args)) T
+  bind_prop fx cfg req (key ++ args) T = bind_tag_value fx cfg req (tag_value_part (ph key ++ args)) T
   /\ tag_value_part (ph key ++ args) = ph key.
 Proof.
-  intros cfg req key args T H [-> | (a & ->)]; unfold bind_prop.
+  intros fx cfg req key args T H [-> | (a & ->)]; unfold bind_prop.
   - rewrite !app_nil_r, (prop_rewrite_noargs key H). split; [reflexivity|apply tag_value_part_ph, H].
   - rewrite (prop_rewrite_args key a H). split; [reflexivity|apply tag_value_part_ph_args, H].
 Qed.
